@@ -187,7 +187,17 @@ class SimProblem(Problem):
             # constant matrices written with integer literals come out with an integer dtype
             # (the repository's own Tame test problem does this)
             return sp.sparse.coo_matrix(np.asarray(dense).astype(np.int64)).asformat(self.fmt)
-        return sp.sparse.coo_matrix(dense).asformat(self.fmt)
+        M = sp.sparse.coo_matrix(dense)
+        if self.spec.get("shuffle") and self.fmt == "coo" and M.nnz > 1:
+            # COO triplets may come in any order (e.g. assembled from a dict); the order changes
+            # from call to call while pattern and values stay the same
+            self._shuffle_count = getattr(self, "_shuffle_count", 0) + 1
+            k = self._shuffle_count % M.nnz
+            idx = np.r_[k : M.nnz, 0:k]
+            if self._shuffle_count % 2:
+                idx = idx[::-1]
+            M = sp.sparse.coo_matrix((M.data[idx], (M.row[idx], M.col[idx])), shape=M.shape)
+        return M.asformat(self.fmt)
 
     def _deliver(self, comp, key, make, const=False):
         pol = self.policy
